@@ -6,6 +6,7 @@ import (
 	"io"
 	"math/big"
 	"reflect"
+	"sync"
 
 	ped377 "github.com/consensys/gnark-crypto/ecc/bls12-377/fr/pedersen"
 	kzg377 "github.com/consensys/gnark-crypto/ecc/bls12-377/kzg"
@@ -77,6 +78,10 @@ type unsafeReader interface {
 
 // checkContainer runs the generic round-trip / truncation checks on src; ref (optional) is the reference encoding
 // of the leading point section in (compressed, raw) mode.
+// usedDest: optional constructors of destinations that already hold another value of the same container type
+// (longer slices, other points): decoding replaces it entirely.
+var usedDest sync.Map // inst/what -> func() any
+
 func checkContainer(c *mon.Ctx, rng *gen.Rng, inst, what string, src any, fresh func() any, ref func(raw bool) []byte) (streams [2][]byte) {
 	s := src.(container)
 	for mi, mode := range []string{"WriteTo", "WriteRawTo"} {
@@ -145,6 +150,40 @@ func checkContainer(c *mon.Ctx, rng *gen.Rng, inst, what string, src any, fresh 
 				})
 			}
 		}
+		// a destination that already holds another value
+		if mkv, ok := usedDest.Load(inst + "/" + what); ok {
+			mk := mkv.(func() any)
+			for _, uns := range []bool{false, true} {
+				dst := mk()
+				op := "ReadFrom"
+				if uns {
+					if _, ok := dst.(unsafeReader); !ok {
+						continue
+					}
+					op = "UnsafeReadFrom"
+				}
+				k2 := func(kind string) string {
+					return inst + "/" + what + "." + op + "/" + kind + "/after-" + mode + "/used-destination"
+				}
+				var n2 int64
+				var err2 error
+				if c.Guard(k2("panic"), func() string { return hx(st) }, func() {
+					if uns {
+						n2, err2 = dst.(unsafeReader).UnsafeReadFrom(bytes.NewReader(st))
+					} else {
+						n2, err2 = dst.(container).ReadFrom(bytes.NewReader(st))
+					}
+				}) {
+					continue
+				}
+				c.Class(inst + "/" + what + "." + op + "/after-" + mode + "/used-destination")
+				c.Check(op, k2("error-on-valid"), err2 == nil, func() string { return fmt.Sprintf("%v on %s", err2, hx(st)) })
+				c.Check(op, k2("BytesRead-mismatch"), n2 == int64(len(st)), func() string { return fmt.Sprintf("returned %d, the stream has %d bytes", n2, len(st)) })
+				c.Check(op, k2("wrong-value"), err2 != nil || reflect.DeepEqual(dst, src), func() string {
+					return fmt.Sprintf("a destination that held a larger value of the same type does not equal the encoded value after decoding; stream %s", hx(st))
+				})
+			}
+		}
 		// truncation: the first 40 offsets, the last three, a seeded sample (about 40 / 400) of the rest
 		for cut := 0; cut < len(st); cut++ {
 			if cut > 40 && cut < len(st)-3 && rng.Intn(len(st)/c.Pick(40, 400)+1) != 0 {
@@ -192,6 +231,19 @@ func runContainers(c *mon.Ctx, cl contLib, s *slib) {
 	}
 	refPk := func(raw bool) []byte { return s.gr.Encode(ocodec.Val{Kind: ocodec.KG1s, P: pts}, raw) }
 	sv := reflect.ValueOf(srs).Elem()
+	alpha2 := rng.BigBelow(g1.g.R)
+	other := func() reflect.Value {
+		o, err := cl.newSRS(uint64(size+2), alpha2)
+		if err != nil {
+			return reflect.Value{}
+		}
+		return reflect.ValueOf(o)
+	}
+	if other().IsValid() {
+		usedDest.Store(inst+"/kzg.ProvingKey", func() any { return other().Elem().FieldByName("Pk").Addr().Interface() })
+		usedDest.Store(inst+"/kzg.VerifyingKey", func() any { return other().Elem().FieldByName("Vk").Addr().Interface() })
+		usedDest.Store(inst+"/kzg.SRS", func() any { return other().Interface() })
+	}
 	pkStreams := checkContainer(c, rng, inst, "kzg.ProvingKey", sv.FieldByName("Pk").Addr().Interface(), cl.freshKzgPk, refPk)
 	checkContainer(c, rng, inst, "kzg.VerifyingKey", sv.FieldByName("Vk").Addr().Interface(), cl.freshKzgVk, nil)
 	checkContainer(c, rng, inst, "kzg.SRS", srs, cl.freshSRS, refPk)
